@@ -39,6 +39,7 @@ def check(model, tier):
     from ..rules import mergeeval as _mergeeval
 
     _mergeeval.r13_7_selection_stores_equivalent(ctx)
+    _mergeeval.r05_9_merge_semantics(ctx, rule="R13.8")  # a merged selection stores the conjunction of both predicates
     from ..rules.foundation import run_foundation
 
     run_foundation(ctx, "13")
